@@ -350,17 +350,28 @@ type vfC08Replay struct {
 }
 
 func TestVerifC08(t *testing.T) {
+	vfRegistryRun(t, "C08", "TestVerifC08", vfC08Scenarios())
+}
+
+// C09 (thread level): a peer's ownership announcement handled by the real NotifyMsg, concurrently with the local
+// re-registration of the same shard - the newest claim must own the shard in every interleaving.
+func TestVerifC09Announce(t *testing.T) {
+	vfRegistryRun(t, "C09", "TestVerifC09Announce", map[string]func(s *vrt.Sched) (string, string, string){
+		"announcement-vs-reregistration": vfAnnouncementVsReregistration(),
+	})
+}
+
+func vfRegistryRun(t *testing.T, property, testName string, scenarios map[string]func(s *vrt.Sched) (string, string, string)) {
 	if vrt.IsWorker() {
-		vrt.ServeShards(t, vfC08Scenarios())
+		vrt.ServeShards(t, scenarios)
 		return
 	}
-	res := vrt.NewResult("C08", "model_checking")
+	res := vrt.NewResult(property, "model_checking")
 	defer func() {
 		if err := res.Write(); err != nil {
 			t.Fatal(err)
 		}
 	}()
-	scenarios := vfC08Scenarios()
 	if p := vrt.ReplayPath(); p != "" {
 		var rp vfC08Replay
 		raw, _ := os.ReadFile(p)
@@ -377,7 +388,7 @@ func TestVerifC08(t *testing.T) {
 		bound = 3
 	}
 	deadline := vrt.Deadline()
-	pool := vrt.NewPool("TestVerifC08", vrt.Workers(), 10*time.Minute)
+	pool := vrt.NewPool(testName, vrt.Workers(), 10*time.Minute)
 	var states, transitions int64
 	exhaustive := true
 	names := make([]string, 0, len(scenarios))
